@@ -80,6 +80,8 @@ func C02(c *core.Ctx) {
 	}
 	// a composition is built from THIS file's definitions also when another file of the run uses the same reference text
 	ruleMultiSel(c, ruleSet("A-MAP", "A-TAG", "A-REQ", "A-NOEXTRA", "A-REJ"), 2, "allOf branch in two files")
+	// a value lands in its field only if the field is exported (A-IDENT, shared with C14)
+	ruleIdent(c)
 	c.Floor("families", c.Counts["members"], 600, "family members")
 	a := engb.New(c.Prog)
 	// the tag list decides which key each field is bound to: the CLI hands the generator the list the user wrote (B-FLAG)
